@@ -52,6 +52,18 @@ PROOF = {
 }
 for pid, (text, ref, note, tech) in PROOF.items():
     CLAIMED[pid] = ("proof", text, ref, note, tech)
+CLAIMED["C12"] = ("proof", "only()/exclude()/without_extras() of every marker class are verified over abstract markers with pointwise ghosts (evaluation at an arbitrary environment, mention of an arbitrary variable): "
+                  "the result never mentions a removed / non-listed variable, mentions nothing new, only() is implied by the marker and has the same meaning when the marker mentions only the listed names; "
+                  "for single markers exclude() returns the marker itself when it does not carry the removed name (string equality over SMT strings). The clause 'exclude() leaves the meaning of a *compound* unchanged "
+                  "when it does not mention the variable' is covered by the bounded part only (it depends on re-normalisation not discovering emptiness, see DESIGN).",
+                  "5 C12", "law.C13 congruence; contracts of of()/flatten_items (proved in the same run); recursion through children by the method contracts (partial correctness); bounded part for the compound same-meaning clause",
+                  "contract-based deductive verification: abstract markers (T-MARK), loop/comprehension invariants, z3 with deterministic instantiation")
+CLAIMED["C02"] = ("other", "Mixed: (proof) the combinator layer - flatten_items, MultiMarker.of / MarkerUnion.of (three nested loops with invariants), cnf/dnf same-kind and leaf branches, intersection(), union(), "
+                  "the &/| methods of AnyMarker/EmptyMarker/MultiMarker/MarkerUnion - is verified against 'result evaluates as the conjunction/disjunction of the operands' for all markers, list lengths and environments; "
+                  "(bounded) the atom layer (merging of two single markers, ==/!= groups, python_version/python_full_version normalisation), the distributive branch of cnf/dnf and *_simplify are assumed contracts, "
+                  "exercised by the run-time sweep of the same contract on real markers over the well-defined atom pool and an environment grid.",
+                  "5 C02", "assumed (bounded) contracts listed in the evidence; law.C13; A-HASHSEED; recorded finding D14",
+                  "contract-based deductive verification of the combinator layer (T-MARK, invariants, z3) + bounded stand-in for the atom layer")
 NA_REASON = "check not built yet in this session (work in progress; see DESIGN.md section 5)"
 ALL = ["C%02d" % i for i in range(1, 20)]
 m = {"version": 1, "setup_cmd": "python3-vt check.py --setup",
